@@ -114,7 +114,7 @@ def r2_resets(rule, root=None):
     # RegisterAllocator::reset touches all six fields
     fn = A.find_fn(ALLOC, "reset", self_ty="RegisterAllocator", root=root)
     st = A.find_item(ALLOC, "StructDef", "RegisterAllocator", root)
-    t = A.unparse(fn["body"]).replace(" ", "")
+    t = A.ftxt(fn["body"])
     want = {
         "allocations": ["self.allocations.fill(UNASSIGNED)", "self.allocations.resize(size,UNASSIGNED)"],
         "registers": ["self.registers.fill(UNASSIGNED)"],
@@ -141,7 +141,7 @@ def r2_resets(rule, root=None):
     # VmWorkspace::reset
     fn = A.find_fn(DATA, "reset", self_ty="VmWorkspace", root=root)
     st = A.find_item(DATA, "StructDef", "VmWorkspace", root)
-    t = A.unparse(fn["body"]).replace(" ", "")
+    t = A.ftxt(fn["body"])
     want = {
         "alloc": ["self.alloc.reset(tape_len,tape)"],
         "bind": ["self.bind.fill(u32::MAX)", "self.bind.resize(tape_len,u32::MAX)"],
@@ -159,7 +159,7 @@ def r2_resets(rule, root=None):
     RT = "fidget-core/src/compiler/reg_tape.rs"
     fn = A.find_fn(RT, "reset", self_ty="RegTape", root=root)
     st = A.find_item(RT, "StructDef", "RegTape", root)
-    t = A.unparse(fn["body"]).replace(" ", "")
+    t = A.ftxt(fn["body"])
     want = {"tape": "self.tape.clear()", "slot_count": "self.slot_count=0"}
     for f in [x["name"] for x in st["fields"]]:
         if f in want and want[f] in t:
@@ -169,7 +169,7 @@ def r2_resets(rule, root=None):
     # SsaTape::reset clears the op list and the choice count
     ST = "fidget-core/src/compiler/ssa_tape.rs"
     fn = A.find_fn(ST, "reset", self_ty="SsaTape", root=root)
-    t = A.unparse(fn["body"]).replace(" ", "")
+    t = A.ftxt(fn["body"])
     for f, frag in (("tape", "self.tape.clear()"), ("choice_count", "self.choice_count=0")):
         if frag in t:
             rule.ok("SsaTape::reset re-initialises `%s`" % f, file=ST, line=fn["ln"])
@@ -184,7 +184,7 @@ def r2_resets(rule, root=None):
     c = need(rule, fn, calls, "the workspace is reset for this tape's length and takes the recycled RegTape", "workspace", "reset", "self.ssa.tape.len()", before=first)
     if c is not None and (len(c["args"]) != 2 or c["args"][1] != "tape.asm"):
         rule.bad("simplify|ws-args", "workspace.reset must receive the recycled `tape.asm`", A.where(fn, c["node"]))
-    t = A.unparse(fn["body"]).replace(" ", "")
+    t = A.ftxt(fn["body"])
     if "letmutops_out=tape.ssa.tape;" in t:
         rule.ok("simplify refills the recycled (and reset) op list")
     else:
@@ -199,7 +199,7 @@ def r3_mmap(rule, root=None):
     ok = False
     for f in froms:
         for s in A.find(f["body"], "Struct"):
-            fl = {x["name"]: A.unparse(x["e"]).replace(" ", "") for x in s["fields"]}
+            fl = {x["name"]: A.ftxt(x["e"]) for x in s["fields"]}
             if fl.get("len") == "0":
                 ok = True
     if ok:
@@ -208,7 +208,7 @@ def r3_mmap(rule, root=None):
         rule.bad("mmapwriter|len0", "a MmapWriter built from recycled storage must start at len = 0", A.where(MMAP, impls[0] if impls else {}))
     # push: capacity check dominates the raw write
     fn = A.find_fn(MMAP, "push", self_ty="MmapWriter", root=root)
-    t = A.unparse(fn["body"]).replace(" ", "")
+    t = A.ftxt(fn["body"])
     calls = A.linear_calls(fn)
     grow = [c for c in calls if c["method"] in ("double_capacity", "expand_mmap", "grow")]
     writes = [c for c in calls if c["unsafe"]] + list(A.find(fn["body"], "Unsafe"))
@@ -226,7 +226,7 @@ def r3_mmap(rule, root=None):
     else:
         rule.bad("mmapwriter|len", "push must advance len by exactly one", A.where(fn))
     fn = A.find_fn(MMAP, "double_capacity", self_ty="MmapWriter", root=root)
-    t = A.unparse(fn["body"]).replace(" ", "")
+    t = A.ftxt(fn["body"])
     if "Mmap::new((self.mmap.capacity*2))" in t and "std::ptr::copy_nonoverlapping(self.mmap.ptr,next.ptr,self.len())" in t and "std::mem::swap(&mutself.mmap,&mutnext)" in t:
         rule.ok("double_capacity copies the written bytes into a mapping twice the size and swaps it in", file=MMAP, line=fn["ln"])
     else:
@@ -252,7 +252,7 @@ def r4_pointer_lists(rule, root=None):
             else:
                 rule.ok("%s cleared before extend #%d" % (vec, ext.index(e)), file=JIT, line=e["node"]["ln"])
     # scratch refill
-    t = A.unparse(fn["body"]).replace(" ", "")
+    t = A.ftxt(fn["body"])
     if "self.scratch.resize(vars.len()," in t and "t[0..n].copy_from_slice(v)" in t:
         rule.ok("short batches: scratch rows resized to the variable count and refilled from the inputs")
     else:
